@@ -357,6 +357,18 @@ func c12Judge(cfg c12Cfg, r *c12Result, constant string) (string, string) {
 				k := "recovery"
 				if is503 {
 					k = "recovery-503"
+				} else if r.errs[0] != nil && strings.Contains(r.errs[0].Error(), "retry limit") {
+					// the attempts of one logical request are counted together whichever host they went to:
+					// visits to hosts that merely LACK the content (404, not a fault) use up the same budget
+					lacking := 0
+					for _, q := range r.log {
+						if q.Answer == "404" {
+							lacking++
+						}
+					}
+					if lacking > 0 && len(r.faults)+lacking > cfg.Limit {
+						k = "recovery-budget-shared-with-hosts-lacking-the-content"
+					}
 				}
 				return k, fmt.Sprintf("%d transient fault(s) %v with retry limit %d were not absorbed: err=%v body=%q: %s", len(r.faults), r.faults, cfg.Limit, r.errs[0], r.bodies[0], c12LogStr(r.log))
 			}
@@ -651,8 +663,8 @@ func c12Key(k string, cfg c12Cfg, faults []string, constant string) string {
 	if k == "" {
 		return ""
 	}
-	if k == "recovery-503" {
-		// one finding: 503 is classified "do not retry"
+	if k == "recovery-503" || k == "recovery-budget-shared-with-hosts-lacking-the-content" {
+		// one finding each: 503 is classified "do not retry"; one retry budget for all hosts
 		return k
 	}
 	fk := map[string]bool{}
